@@ -22,6 +22,10 @@ type Op struct {
 	Name string            `json:"name"`
 	Args []json.RawMessage `json:"args"`
 	Res  json.RawMessage   `json:"res"`
+	// Alt lists further outcomes the property allows for this call although the implementation
+	// model (I-layer) does not produce them. Code answering with one of them is not wrong; the
+	// path is abandoned because the model state is unknown from there on.
+	Alt []json.RawMessage `json:"alt"`
 }
 
 func (o Op) Int(i int) int {
@@ -47,6 +51,7 @@ type Edge struct {
 	Op       Op
 	Res      string // canonical JSON
 	Obs      string // canonical JSON
+	IObs     string // canonical JSON of the implementation-level observation ("" if none)
 }
 
 type Graph struct {
@@ -105,6 +110,7 @@ func Load(path string) (*Graph, error) {
 			From json.RawMessage `json:"from"`
 			To   json.RawMessage `json:"to"`
 			Obs  json.RawMessage `json:"obs"`
+			IObs json.RawMessage `json:"iobs"`
 			Op   Op              `json:"op"`
 		} `json:"d"`
 	}
@@ -120,6 +126,9 @@ func Load(path string) (*Graph, error) {
 			continue
 		}
 		e := Edge{From: g.state(l.D.From), To: g.state(l.D.To), Op: l.D.Op, Res: Canon(l.D.Op.Res), Obs: Canon(l.D.Obs)}
+		if len(l.D.IObs) > 0 {
+			e.IObs = Canon(l.D.IObs)
+		}
 		dk := fmt.Sprintf("%d|%s|%s|%d", e.From, e.Op.Key(), e.Res, e.To)
 		if seen[dk] {
 			continue
@@ -141,6 +150,12 @@ type Instance interface {
 	Do(op Op) any
 	// Obs observes the object through its public API (and read-only hooks) in the shape of obs.
 	Obs() any
+}
+
+// IObserver is implemented by instances that can also show implementation-level state (hooks).
+// A mismatch there is model drift, never a verdict.
+type IObserver interface {
+	IObs() any
 }
 
 type Subject interface {
@@ -166,6 +181,9 @@ type Stats struct {
 	EdgesCovered            int
 	OpKeysTotal, OpKeysDone int
 	Paths, Steps            int
+	Deviations              int // legal outcomes outside the I-layer model (path abandoned)
+	Drift                   int // implementation-level observation differs from the model
+	DriftSample             string
 	Violations              []Violation
 }
 
@@ -203,7 +221,23 @@ func (r *Runner) step(inst Instance, st int, key string, path *[]Step) int {
 				continue
 			}
 			r.covered[ei] = true
+			if io, ok := inst.(IObserver); ok && e.IObs != "" {
+				if got := CanonV(io.IObs()); got != e.IObs {
+					r.St.Drift++
+					if r.St.DriftSample == "" {
+						r.St.DriftSample = fmt.Sprintf("after %s: model %s, code %s", key, e.IObs, got)
+					}
+				}
+			}
 			return e.To
+		}
+	}
+	for _, ei := range eids {
+		for _, a := range r.G.Edges[ei].Op.Alt {
+			if Canon(a) == res {
+				r.St.Deviations++
+				return -2
+			}
 		}
 	}
 	v := Violation{Path: append([]Step(nil), *path...), State: r.G.States[st], Call: key, Got: res}
@@ -293,7 +327,7 @@ func (r *Runner) CoverEdges() {
 			if cur != s {
 				continue
 			}
-			if r.step(inst, cur, k, &path) >= 0 {
+			if x := r.step(inst, cur, k, &path); x >= 0 || x == -2 {
 				r.St.OpKeysDone++
 			}
 		}
